@@ -8,7 +8,8 @@ grids: a rank holds every cell that touches one of its nodes, with the ghost nod
              one-ring of the nearest donor corner (the shell in which a seed has min weight in (-0.1, -1e-12))
   same       same domain, different resolution (corners coincide: weight 1,0,0,0 seeds)
   round      discs / balls with ONE boundary id: no geometry nodes, everything goes through the tree fall-back
-  roundbox   receptor box inside a donor disc / ball (donor without geometry nodes)
+  roundbox   receptor box inside a donor disc / ball (donor without geometry nodes: the receptor corners get no seed and
+             are located by the tree stage; regression input of the fixed finding interp-geom-nodes-donor-without-corners)
   stretched  donor cells of aspect up to 30
   strip      a long thin donor under a coarse receptor: walks of more than 215 steps (TERMINATED -> tree)
   partial    receptor sticking out of the donor
@@ -373,8 +374,6 @@ def gen_locate(rng, tier, np=None):
             for twod in (True, False):
                 if kind == 'strip' and not twod and tier == 'quick' and rng.random() < 0.5:
                     continue
-                if kind == 'roundbox' and npp > 1:
-                    continue  # ref_interp_geom_nodes fails on ONE rank (finding): the other ranks wait for it for ever
                 ops += session(rng, npp, twod, kind)
     ops += malformed(npp)
     return ops
@@ -464,13 +463,11 @@ def oracle_locate(ops, impl):
                 outside = [g for g, x in s.rxyz.items() if not s.in_domain(x)]
                 if outside:
                     continue  # a receptor vertex outside the donor domain: the search may give up (fuzz limit)
-                if s.tgeom and not s.dgeom:
-                    bad.append((i, 'ref_interp_locate returned %s: the receptor has geometry nodes, the donor has none '
-                                   '(ref_interp_geom_nodes: RUS "no geom node"), every receptor vertex is inside the donor'
-                                % o[0], SITE_NO_DONOR_CORNER))
-                else:
-                    bad.append((i, 'ref_interp_locate returned %s although every receptor vertex lies in the donor domain'
-                                % o[0]))
+                # (until /repo 0166523 a donor without geometry nodes made ref_interp_geom_nodes fail here: finding
+                #  interp-geom-nodes-donor-without-corners, fixed; the `roundbox` sessions and two corpus files are its
+                #  regression inputs: every receptor vertex must now be located, by the tree stage)
+                bad.append((i, 'ref_interp_locate returned %s although every receptor vertex lies in the donor domain'
+                            % o[0]))
             continue
         try:
             if w[0] == 'dnode':
@@ -559,7 +556,7 @@ LOCATE_MPI3.ops_file = True
 
 
 # ------------------------------------------------------------------------------------------------ end to end: `ref interpolate`
-CLI_KINDS = ['nested', 'shell', 'offset', 'offset', 'offset', 'same', 'stretched', 'round', 'big', 'partial']
+CLI_KINDS = ['nested', 'shell', 'offset', 'offset', 'offset', 'same', 'stretched', 'round', 'roundbox', 'big', 'partial']
 
 
 def off_fields(d):
